@@ -10,6 +10,8 @@
 //   timer <tid> acts=<a0>/<a1>/...      scripted scheduler node; a_k = ops joined by '+', run in activation k
 //                                       (k = 0 the start hook); ops: rel.<us> abs.<us> wall.<us> spin.<us> lag.<us> stop -
 //                                       [tail=<ops> tailn=<n>]: ops of the next n activations after the scripted ones
+//                                       [in=<sid>]: the node also has an active input bound to push source <sid>; an
+//                                       activation caused by that input alone runs no ops and is not a timer evaluation
 //   sched <th>:<gate>,<th>:<gate>,...   replay: interleaving of critical sections (th: e | p<pid> | s)
 //   run
 //
@@ -71,6 +73,7 @@ namespace
         std::vector<std::vector<std::string>> acts;
         std::vector<std::string>              tail;   // ops of every activation after the scripted ones ...
         long                                  tailn{0};  // ... for this many further activations
+        long                                  in{-1};    // push source whose output also activates this node (-1: none)
     };
     struct Step
     {
@@ -449,12 +452,13 @@ namespace
         }
     }
 
-    NodeBuilder make_timer(const TimerSpec &sp, const TSValueTypeMetaData &ts_int)
+    NodeBuilder make_timer(const TimerSpec &sp, const TSValueTypeMetaData &ts_int, const TSValueTypeMetaData *input_schema = nullptr)
     {
         NodeTypeMetaData schema;
         schema.display_name   = "hgv_rt_timer";
         schema.output_schema  = &ts_int;
-        schema.node_kind      = NodeKind::PullSource;
+        schema.node_kind      = input_schema != nullptr ? NodeKind::Compute : NodeKind::PullSource;
+        schema.input_schema   = input_schema;
         schema.uses_scheduler = true;
         NodeCallbacks callbacks;
         auto          k  = std::make_shared<long>(0);
@@ -464,6 +468,12 @@ namespace
             run_acts(spec, 0, view, start_time);
         };
         callbacks.evaluate = [spec, k](const NodeView &view, DateTime evaluation_time) {
+            if (spec.in >= 0)
+            {
+                // activated by the input alone: the pending timer requests stay as they are (the engine re-arms them)
+                const auto &events = view.scheduler_state().events;
+                if (events.empty() || events.begin()->first != evaluation_time) { return; }
+            }
             ++*k;
             Ev &e = record(K_TEV);
             e.a   = spec.tid;
@@ -473,6 +483,11 @@ namespace
             hgraph::testing::set_output_value(view, evaluation_time, Int{*k});
             run_acts(spec, *k, view, evaluation_time);
         };
+        if (input_schema != nullptr)
+        {
+            callbacks.input_validity_in_evaluate = true;   // the timer runs whether or not the input holds a value yet
+            return NodeBuilder::native(std::move(schema), std::move(callbacks), hgraph::testing::single_input_endpoint(*input_schema, ts_int));
+        }
         return NodeBuilder::native(std::move(schema), std::move(callbacks));
     }
 
@@ -777,7 +792,17 @@ namespace
             gb.add_node(make_sink(scn.srcs[i], burst ? *in_tuple : *in_int, burst ? *ts_tuple : *ts_int));
             gb.add_edge(GraphEdge{.source_node = make_graph_edge_source(i), .source_path = {}, .target_node = nsrc + i, .target_path = {0}});
         }
-        for (auto &t : scn.timers) { gb.add_node(make_timer(t, *ts_int)); }
+        for (std::size_t j = 0; j < scn.timers.size(); ++j)
+        {
+            const TimerSpec &t = scn.timers[j];
+            if (t.in >= 0 && static_cast<std::size_t>(t.in) < nsrc && scn.srcs[static_cast<std::size_t>(t.in)].policy != "burst")
+            {
+                gb.add_node(make_timer(t, *ts_int, in_int));
+                gb.add_edge(GraphEdge{.source_node = make_graph_edge_source(static_cast<std::size_t>(t.in)), .source_path = {},
+                                      .target_node = 2 * nsrc + j, .target_path = {0}});
+            }
+            else { gb.add_node(make_timer(t, *ts_int)); }
+        }
 
         Obs obs;
         r.base    = wall() + TimeDelta{scn.start_us};
@@ -962,6 +987,7 @@ int main(int, char **)
                 for (auto &a : split(l.gets("acts", "-"), '/')) { t.acts.push_back(split(a, '+')); }
                 if (l.has("tail")) { t.tail = split(l.gets("tail"), '+'); }
                 t.tailn = l.geti("tailn", 0);
+                t.in    = l.geti("in", -1);
                 scn->timers.push_back(t);
             }
             else if (cmd == "sched")
